@@ -302,6 +302,19 @@ func builtinBoundaryScenarios() []refScenario {
 		for j, rs := range refSets {
 			out = append(out, refScenario{ID: fmt.Sprintf("bb%d-%d", i+1, j+1), Class: "builtin-boundary", Refs: conflictFree(rs), Opts: sq})
 		}
+		// the same sequence with the predefined-group options spelled with an explicit boolean value
+		// (=true, the opposite option with =false or =0, =1), in every position
+		if sq[len(sq)-1].Kind == "builtin" {
+			for sp := 4; sp <= 7; sp++ {
+				sq2 := append([]refOpt(nil), sq...)
+				for k := range sq2 {
+					if sq2[k].Kind == "builtin" {
+						sq2[k].Spelling = sp + k // different spellings at different positions
+					}
+				}
+				out = append(out, refScenario{ID: fmt.Sprintf("bb%d-v%d", i+1, sp), Class: "builtin-boundary", Refs: conflictFree(refSets[sp%2]), Opts: sq2})
+			}
+		}
 	}
 	return out
 }
@@ -337,7 +350,15 @@ func mixedKindSelections(rng *rand.Rand, sample int) []refScenario {
 		if sample > 0 && rng.Intn(len(seqs)) >= sample {
 			continue
 		}
-		out = append(out, refScenario{ID: fmt.Sprintf("mk%d", i+1), Class: "mixed-kinds", Refs: refs, Opts: sq})
+		sq2 := append([]refOpt(nil), sq...)
+		if i%2 == 1 { // every other sequence: explicit boolean values on the predefined-group options
+			for k := range sq2 {
+				if sq2[k].Kind == "builtin" {
+					sq2[k].Spelling = 4 + rng.Intn(4)
+				}
+			}
+		}
+		out = append(out, refScenario{ID: fmt.Sprintf("mk%d", i+1), Class: "mixed-kinds", Refs: refs, Opts: sq2})
 	}
 	return out
 }
